@@ -19,18 +19,22 @@ Record snode := mkS {
   s_doc : id;                    (* ownerDocument (a Document: itself) *)
   s_parent : option id;
   s_kids : list id;
-  s_ro : bool
+  s_ro : bool;
+  s_ns : str;                    (* namespace URI ([] = none) *)
+  s_l1 : bool                    (* created by a DOM Level 1 method (createElement/createAttribute): no namespace support *)
 }.
 Definition sheap := list snode.
-Definition sdummy : snode := mkS TText [] [] [] 0 None [] false.
+Definition sdummy : snode := mkS TText [] [] [] 0 None [] false [] true.
 Definition sn (s : sheap) (i : id) : snode := nth i s sdummy.
 Fixpoint supd (s : sheap) (i : id) (f : snode -> snode) : sheap :=
   match s, i with [], _ => [] | x :: r, O => f x :: r | x :: r, S j => x :: supd r j f end.
 
-Definition with_val v (n : snode) := mkS (s_ty n) (s_name n) v (s_attrs n) (s_doc n) (s_parent n) (s_kids n) (s_ro n).
-Definition with_attrs v (n : snode) := mkS (s_ty n) (s_name n) (s_val n) v (s_doc n) (s_parent n) (s_kids n) (s_ro n).
-Definition with_parent v (n : snode) := mkS (s_ty n) (s_name n) (s_val n) (s_attrs n) (s_doc n) v (s_kids n) (s_ro n).
-Definition with_kids v (n : snode) := mkS (s_ty n) (s_name n) (s_val n) (s_attrs n) (s_doc n) (s_parent n) v (s_ro n).
+Definition with_val v (n : snode) := mkS (s_ty n) (s_name n) v (s_attrs n) (s_doc n) (s_parent n) (s_kids n) (s_ro n) (s_ns n) (s_l1 n).
+Definition with_attrs v (n : snode) := mkS (s_ty n) (s_name n) (s_val n) v (s_doc n) (s_parent n) (s_kids n) (s_ro n) (s_ns n) (s_l1 n).
+Definition with_parent v (n : snode) := mkS (s_ty n) (s_name n) (s_val n) (s_attrs n) (s_doc n) v (s_kids n) (s_ro n) (s_ns n) (s_l1 n).
+Definition with_name v (n : snode) := mkS (s_ty n) v (s_val n) (s_attrs n) (s_doc n) (s_parent n) (s_kids n) (s_ro n) (s_ns n) (s_l1 n).
+Definition with_ns v (n : snode) := mkS (s_ty n) (s_name n) (s_val n) (s_attrs n) (s_doc n) (s_parent n) (s_kids n) (s_ro n) v (s_l1 n).
+Definition with_kids v (n : snode) := mkS (s_ty n) (s_name n) (s_val n) (s_attrs n) (s_doc n) (s_parent n) v (s_ro n) (s_ns n) (s_l1 n).
 
 (** rose-tree view of the subtree rooted at [i] *)
 Inductive tree := T (i : id) (ty : ntype) (name value : str) (attrs : list (str * str)) (children : list tree).
@@ -45,6 +49,7 @@ Definition allowed_child (p c : ntype) : bool :=
   match p with
   | TDoc => match c with TElem | TPI | TComment => true | _ => false end
   | TElem | TFrag | TERef => match c with TElem | TText | TCData | TERef | TPI | TComment => true | _ => false end
+  | TAttr => match c with TText | TERef => true | _ => false end
   | _ => false
   end.
 Definition child_ok (s : sheap) (p c : id) : bool :=
@@ -139,7 +144,10 @@ Definition s_chardata (s : sheap) (n : id) (f : str -> option str) : sheap * res
        | None => (s, RErr INDEX_SIZE)
        | Some v => (supd s n (with_val v), ROk)
        end.
-Definition in_range (off : nat) (d : str) : bool := off <=? length d.
+Definition in_range (off : N) (d : str) : bool := N.leb off (N.of_nat (length d)).
+(** the part of [d] from [off] on, at most [cnt] units long: a count beyond the end means "to the end" *)
+Definition tail_from (off cnt : N) (d : str) : str := skipn (N.to_nat off + N.to_nat (N.min cnt (N.of_nat (length d) - off))) d.
+Definition head_to (off : N) (d : str) : str := firstn (N.to_nat off) d.
 
 Definition s_new (s : sheap) (x : snode) : sheap * result := (s ++ [x], RNode (length s)).
 
@@ -147,20 +155,21 @@ Definition s_create (s : sheap) (doc : id) (t : ntype) (nm v : str) : sheap * re
   if negb (ntype_eqb (s_ty (sn s doc)) TDoc) then (s, RSkip)
   else match t with
        | TDoc => (s, RSkip)
-       | TElem | TERef => if valid_name nm then s_new s (mkS t nm [] [] doc None [] (ntype_eqb t TERef)) else (s, RErr INVALID_CHAR)
-       | TPI => if valid_name nm then s_new s (mkS t nm v [] doc None [] false) else (s, RErr INVALID_CHAR)
-       | TFrag => s_new s (mkS t [] [] [] doc None [] false)
-       | _ => s_new s (mkS t [] v [] doc None [] false)
+       | TElem | TERef | TAttr => if valid_name nm then s_new s (mkS t nm [] [] doc None [] (ntype_eqb t TERef) [] true) else (s, RErr INVALID_CHAR)
+       | TPI => if valid_name nm then s_new s (mkS t nm v [] doc None [] false [] true) else (s, RErr INVALID_CHAR)
+       | TFrag => s_new s (mkS t [] [] [] doc None [] false [] true)
+       | _ => s_new s (mkS t [] v [] doc None [] false [] true)
        end.
 
 (** splitText: the tail becomes a new node of the same type, inserted as the next sibling (under the rules of
     insertBefore: by (d) a Document may refuse the tail, then nothing happens) *)
-Definition s_split (s : sheap) (n : id) (off : nat) : sheap * result :=
+Definition s_split (s : sheap) (n : id) (offN : N) : sheap * result :=
   if s_ro (sn s n) then (s, RErr NO_MOD)
   else let d := s_val (sn s n) in
-       if negb (in_range off d) then (s, RErr INDEX_SIZE)
-       else let nt := length s in
-            let s1 := s ++ [mkS (s_ty (sn s n)) [] (skipn off d) [] (s_doc (sn s n)) None [] false] in
+       if negb (in_range offN d) then (s, RErr INDEX_SIZE)
+       else let off := N.to_nat offN in
+            let nt := length s in
+            let s1 := s ++ [mkS (s_ty (sn s n)) [] (skipn off d) [] (s_doc (sn s n)) None [] false [] true] in
             let (s2, r2) := match s_parent (sn s n) with
                             | Some p => s_insert s1 p nt (next_of n (s_kids (sn s p))) None
                             | None => (s1, ROk)
@@ -202,16 +211,47 @@ Fixpoint s_clone (fuel : nat) (s : sheap) (n : id) (deep : bool) : sheap * id :=
   let c := length s in
   let s1 := s ++ [mkS (s_ty x) (match s_ty x with TFrag => [] | _ => s_name x end)
                       (if is_leaf (s_ty x) then s_val x else []) (match s_ty x with TElem => s_attrs x | _ => [] end)
-                      (s_doc x) None [] (ntype_eqb (s_ty x) TERef)] in
+                      (s_doc x) None [] (ntype_eqb (s_ty x) TERef) (s_ns x) (s_l1 x)] in
   match fuel with
   | O => (s1, c)
   | S f =>
-    if deep then
+    if deep || ntype_eqb (s_ty x) TAttr then          (* the value of an attribute is always copied *)
       (fold_left (fun s0 k => let (s2, kc) := s_clone f s0 k true in
                               supd (supd s2 c (fun y => with_kids (s_kids y ++ [kc]) y)) kc (with_parent (Some c)))
                  (s_kids x) s1, c)
     else (s1, c)
   end.
+
+
+(** renameNode (DOM L3): the node keeps its children, attributes and its position among its siblings.
+    (f) a node created by a Level 1 method that is renamed into a namespace is replaced by a new, namespace-aware
+        node (numbered next) which takes over children, attributes and position; the old node is left empty and
+        parentless.  Otherwise the node is renamed in place.
+    (g) for a Level 1 node renamed without a namespace only XML-name validity is required (it has no prefix). *)
+Fixpoint replace_id (old new : id) (l : list id) : list id :=
+  match l with [] => [] | x :: r => if Nat.eqb x old then new :: r else x :: replace_id old new r end.
+Definition s_rename (s : sheap) (doc n : id) (ns nm : str) : sheap * result :=
+  if negb (oeqb (s_owner_doc s n) (Some doc)) then (s, RErr WRONG_DOC)
+  else
+    let x := sn s n in
+    let is_attr := ntype_eqb (s_ty x) TAttr in
+    if negb (is_elem s n || is_attr) then (s, RErr NOT_SUPPORTED)
+    else if negb (valid_name nm) then (s, RErr INVALID_CHAR)
+    else if s_l1 x && match ns with [] => true | _ => false end then (supd s n (with_name nm), RNode n)      (* (g) *)
+    else match ns_bind is_attr ns nm with
+         | None => (s, RErr NAMESPACE)
+         | Some uri =>
+           if s_l1 x then                                                                                    (* (f) *)
+             let ne := length s in
+             let s1 := s ++ [mkS (s_ty x) nm [] (s_attrs x) doc (s_parent x) (s_kids x) false uri false] in
+             let s2 := fold_left (fun s0 k => supd s0 k (with_parent (Some ne))) (s_kids x) s1 in
+             let s3 := match s_parent x with
+                       | Some p => supd s2 p (fun y => with_kids (replace_id n ne (s_kids y)) y)
+                       | None => s2
+                       end in
+             (supd s3 n (fun y => with_attrs [] (with_kids [] (with_parent None y))), RNode ne)
+           else (supd s n (fun y => with_ns uri (with_name nm y)), RNode n)
+         end.
 
 Definition svalid (s : sheap) (i : id) : bool := i <? length s.
 Definition sovalid (s : sheap) (o : option id) : bool := match o with Some i => svalid s i | None => true end.
@@ -234,19 +274,21 @@ Definition sstep (s : sheap) (o : op) : sheap * result :=
   | OAppendData n v => if svalid s n && is_chardata (s_ty (sn s n)) then s_chardata s n (fun d => Some (d ++ v)) else (s, RSkip)
   | OInsertData n off v =>
     if svalid s n && is_chardata (s_ty (sn s n)) then
-      s_chardata s n (fun d => if in_range off d then Some (firstn off d ++ v ++ skipn off d) else None)
+      s_chardata s n (fun d => if in_range off d then Some (head_to off d ++ v ++ tail_from off 0 d) else None)
     else (s, RSkip)
   | ODeleteData n off cnt =>
     if svalid s n && is_chardata (s_ty (sn s n)) then
-      s_chardata s n (fun d => if in_range off d then Some (firstn off d ++ skipn (off + cnt) d) else None)
+      s_chardata s n (fun d => if in_range off d then Some (head_to off d ++ tail_from off cnt d) else None)
     else (s, RSkip)
   | OReplaceData n off cnt v =>
     if svalid s n && is_chardata (s_ty (sn s n)) then
-      s_chardata s n (fun d => if in_range off d then Some (firstn off d ++ v ++ skipn (off + cnt) d) else None)
+      s_chardata s n (fun d => if in_range off d then Some (head_to off d ++ v ++ tail_from off cnt d) else None)
     else (s, RSkip)
   | OSubstring n off cnt =>
     if svalid s n && is_chardata (s_ty (sn s n)) then
-      (if in_range off (s_val (sn s n)) then (s, RStr (firstn cnt (skipn off (s_val (sn s n))))) else (s, RErr INDEX_SIZE))
+      (if in_range off (s_val (sn s n))
+       then (s, RStr (firstn (N.to_nat (N.min cnt (N.of_nat (length (s_val (sn s n)))))) (tail_from off 0 (s_val (sn s n)))))
+       else (s, RErr INDEX_SIZE))
     else (s, RSkip)
   | OSplitText n off => if svalid s n && is_text (s_ty (sn s n)) then s_split s n off else (s, RSkip)
   | OSetAttr e nm v =>
@@ -263,6 +305,8 @@ Definition sstep (s : sheap) (o : op) : sheap * result :=
   | OGetAttr e nm =>
     if svalid s e && is_elem s e then (s, RStr (match attr_get (s_attrs (sn s e)) nm with Some v => v | None => [] end))
     else (s, RSkip)
+  | ORename d n ns nm =>
+    if svalid s d && svalid s n && ntype_eqb (s_ty (sn s d)) TDoc then s_rename s d n ns nm else (s, RSkip)
   end.
 
 Fixpoint srun (s : sheap) (l : list op) : sheap * list result :=
@@ -271,4 +315,4 @@ Fixpoint srun (s : sheap) (l : list op) : sheap * list result :=
   | o :: r => let (s1, x) := sstep s o in let (s2, xs) := srun s1 r in (s2, x :: xs)
   end.
 
-Definition sinit (n : nat) : sheap := map (fun i => mkS TDoc [] [] [] i None [] false) (seq 0 n).
+Definition sinit (n : nat) : sheap := map (fun i => mkS TDoc [] [] [] i None [] false [] true) (seq 0 n).
